@@ -34,6 +34,17 @@ Theorem C10_restart_after_exception : forall limit delay n p t,
   may_restart limit n = true -> lstep limit delay (Running n p) t (LExit Exc) = Some (Delay (S n) t p).
 Proof. exact restart_after_exception. Qed.
 
+(* ... exactly when the restarts already consumed are BELOW the limit in force at that failure
+   (`self._restart_limit` is read at every failure and may have been changed meanwhile); at or beyond
+   it the failure is final *)
+Theorem C10_restart_budget : forall limit n,
+  may_restart limit n = true <-> match limit with None => True | Some l => (n < l)%nat end.
+Proof. exact may_restart_spec. Qed.
+
+Theorem C10_no_restart_without_budget : forall limit delay n p t,
+  may_restart limit n = false -> lstep limit delay (Running n p) t (LExit Exc) = Some (Ended Exc).
+Proof. exact no_restart_without_budget. Qed.
+
 (* a normal return, a cancellation and a BaseException are final: never re-invoked *)
 Theorem C10_no_restart_after : forall limit delay s0 tr1 t o tr2 s,
   lrun limit delay s0 (tr1 ++ (t, LExit o) :: tr2) = Some s -> o <> Exc ->
@@ -73,7 +84,7 @@ Proof. intros. apply delay_pending_rejects_enter. assumption. Qed.
 Theorem C10_loop_uses_own_config : forall c st t tid le st',
   gstep c st t (GLoop tid le) = Some st' ->
   exists a s s', g_tasks st tid = Some (TLoop a s) /\ le <> LCancel /\
-                 lstep (c_limit c a) (c_delay c a) s t le = Some s' /\ g_tasks st' tid = Some (TLoop a s').
+                 lstep (cur_limit c st a) (c_delay c a) s t le = Some s' /\ g_tasks st' tid = Some (TLoop a s').
 Proof. exact loop_step_uses_own_config. Qed.
 
 Theorem C10_first_run_immediate : forall limit delay t0 l tb r s,
@@ -123,6 +134,21 @@ Proof. exact returned_call_ok. Qed.
 Theorem C10_outcomes_stable : forall c st t e st' x o,
   gstep c st t e = Some st' -> outc st x = Some o -> outc st' x = Some o.
 Proof. intros c st t e st' x o H. exact (step_mono c st t e st' H x o). Qed.
+
+(* the task awaiting wait()/stop()/`async with` exit is itself cancelled or timed out while the call is
+   blocked: the call may RAISE CancelledError at any time (nothing else changes, no task counts as
+   finished) ... *)
+Theorem C10_awaiter_cancelled : forall c st t w st',
+  gstep c st t (GCallCancelled w) = Some st' ->
+  g_wait st w <> None /\ g_wait st' w = None /\ g_fin st' = g_fin st /\ g_ret st' = g_ret st /\
+  g_tasks st' = g_tasks st /\ g_set st' = g_set st.
+Proof. exact awaiter_cancelled. Qed.
+
+(* ... but it may RETURN (normally or with the error group) only once its result is determined, which by
+   C10_stop means every task it waited for -- including all of the set at call time -- is done *)
+Theorem C10_return_needs_result : forall c st t w r st',
+  gstep c st t (GRet w r) = Some st' -> exists F, g_fin st w = Some F /\ wres_eqb (f_res F) r = true.
+Proof. exact ret_needs_finished. Qed.
 
 (* ---- cancel_and_await(task) (_internal/_asyncio.py), used to stop helper tasks ---- *)
 
@@ -193,6 +219,8 @@ Print Assumptions C10_restart_count.
 Print Assumptions C10_restart_count_cancelled_in_delay.
 Print Assumptions C10_restart_count_any_state.
 Print Assumptions C10_restart_after_exception.
+Print Assumptions C10_restart_budget.
+Print Assumptions C10_no_restart_without_budget.
 Print Assumptions C10_no_restart_after.
 Print Assumptions C10_no_restart_beyond_limit.
 Print Assumptions C10_delay.
@@ -205,6 +233,8 @@ Print Assumptions C10_start_idempotent.
 Print Assumptions C10_stop_cancels.
 Print Assumptions C10_stop.
 Print Assumptions C10_outcomes_stable.
+Print Assumptions C10_awaiter_cancelled.
+Print Assumptions C10_return_needs_result.
 Print Assumptions C10_cancel_and_await_call.
 Print Assumptions C10_cancel_and_await_returns.
 Print Assumptions C10_async_with_exit.
